@@ -1,6 +1,7 @@
 package main
 
 import (
+	"io"
 	"os"
 	"os/exec"
 	"path/filepath"
@@ -18,7 +19,11 @@ func init() {
 
 // input: (srcView priorView merge srcKind cap differ notify unpriv [collision])
 //
-//	srcKind 0 = synthetic in-memory FS, 1 = on-disk source through fsutil.NewFS
+//	srcKind 0 = synthetic in-memory FS, 1 = on-disk source through fsutil.NewFS; either a number or a
+//	        list (kind readerMode k): how the readers returned by the source's Open deliver the bytes
+//	        (c01ReaderFS) — 0 as the underlying reader, 1 at most k bytes per Read, 2 half of the
+//	        buffer per Read, 3 the last piece together with io.EOF, 4 = 1 and 3 combined.  The
+//	        specification does not depend on it: any io.Reader behaviour is legal for an fsutil.FS.
 //	differ  0 = DiffMetadata, 1 = DiffNone
 //
 // output: (send_err recv_err hung dest_raw reqs notifs)
@@ -140,7 +145,12 @@ func transfer0101(in Sx, work string) (out Sx) {
 	src := SxView(in.L[0])
 	prior := SxView(in.L[1])
 	merge := in.L[2].IsTrue()
-	srcKind := in.L[3].Int()
+	srcKind, rdMode, rdK := 0, 0, 0
+	if in.L[3].Kind == 'l' {
+		srcKind, rdMode, rdK = in.L[3].L[0].Int(), in.L[3].L[1].Int(), in.L[3].L[2].Int()
+	} else {
+		srcKind = in.L[3].Int()
+	}
 	capacity := in.L[4].Int()
 	differ := fsutil.DiffType(in.L[5].Int())
 	notify := in.L[6].IsTrue()
@@ -174,6 +184,9 @@ func transfer0101(in Sx, work string) (out Sx) {
 		}
 	} else {
 		fs = &MemFS{Roots: src}
+	}
+	if rdMode != 0 {
+		fs = &c01ReaderFS{FS: fs, mode: rdMode, k: rdK}
 	}
 	cfg := TransferCfg{Src: fs, Dest: dest, Merge: merge, Differ: differ, StreamCap: capacity, Notify: notify}
 	if unpriv {
@@ -227,6 +240,94 @@ func c01RelinkSpecial(view []*MNode, root string) error {
 	}
 	return rec("", view)
 }
+
+// c01ReaderFS wraps a source FS: Walk is the underlying one, the readers returned by Open deliver
+// the same bytes with another (legal) io.Reader behaviour.
+type c01ReaderFS struct {
+	fsutil.FS
+	mode, k int
+}
+
+func (f *c01ReaderFS) Open(p string) (io.ReadCloser, error) {
+	rc, err := f.FS.Open(p)
+	if err != nil {
+		return nil, err
+	}
+	return &c01Reader{rc: rc, mode: f.mode, k: f.k}, nil
+}
+
+type c01Reader struct {
+	rc      io.ReadCloser
+	mode, k int
+	pend    []byte // one piece read ahead (modes 3, 4: needed to know which piece is the last)
+	pendErr error
+	primed  bool
+}
+
+// piece reads the next piece of at most len(b) bytes according to the size rule of the mode.
+func (r *c01Reader) piece(b []byte) (int, error) {
+	switch r.mode {
+	case 1, 4:
+		if r.k > 0 && len(b) > r.k {
+			b = b[:r.k]
+		}
+	case 2:
+		b = b[:(len(b)+1)/2]
+	}
+	// fill the piece completely unless the data ends (so that the piece size is exactly the rule's)
+	n := 0
+	for n < len(b) {
+		m, err := r.rc.Read(b[n:])
+		n += m
+		if err != nil {
+			return n, err
+		}
+		if m == 0 {
+			break
+		}
+	}
+	return n, nil
+}
+
+func (r *c01Reader) Read(b []byte) (int, error) {
+	if len(b) == 0 {
+		return 0, nil
+	}
+	if r.mode != 3 && r.mode != 4 {
+		n, err := r.piece(b)
+		if n > 0 && err == io.EOF {
+			return n, nil // EOF alone on the next call
+		}
+		return n, err
+	}
+	// data together with io.EOF on the last piece: keep one piece ahead
+	if !r.primed {
+		tmp := make([]byte, len(b))
+		n, err := r.piece(tmp)
+		r.pend, r.pendErr, r.primed = tmp[:n], err, true
+	}
+	if len(r.pend) == 0 {
+		return 0, r.pendErr
+	}
+	n := copy(b, r.pend)
+	if n < len(r.pend) {
+		r.pend = r.pend[n:]
+		return n, nil
+	}
+	if r.pendErr != nil {
+		r.pend = nil
+		return n, r.pendErr
+	}
+	tmp := make([]byte, len(b))
+	m, err := r.piece(tmp)
+	r.pend, r.pendErr = tmp[:m], err
+	if m == 0 && err != nil {
+		return n, err // the piece just returned was the last one
+	}
+	return n, nil
+}
+
+func (r *c01Reader) Close() error { return r.rc.Close() }
 
 // mutateView derives a "dirty destination" from a source view: drop, retouch, rewrite,
 // retype entries, add strangers — over the same name universe so that every type pair collides.
@@ -612,7 +713,15 @@ func genC01(g *Gen) {
 		if coll && !merge {
 			cls = "excluded-identity-collision(" + cls + ")"
 		}
-		in := L(ViewSx(src), ViewSx(prior), Bool(merge), NI(srcKind), NI(Pick(r, []int{0, 1, 32, 64})), NI(0), Bool(r.Chance(30)), Bool(unpriv), Bool(coll))
+		// reader behaviour of the source (any io.Reader is legal for an fsutil.FS)
+		sk := NI(srcKind)
+		if r.Chance(50) {
+			mode := 1 + r.Intn(4)
+			k := Pick(r, []int{1, 7, 4096, 32767})
+			sk = L(NI(srcKind), NI(mode), NI(k))
+			cls += []string{"", "+rd-cap", "+rd-half", "+rd-dataeof", "+rd-cap-dataeof"}[mode]
+		}
+		in := L(ViewSx(src), ViewSx(prior), Bool(merge), sk, NI(Pick(r, []int{0, 1, 32, 64})), NI(0), Bool(r.Chance(30)), Bool(unpriv), Bool(coll))
 		nontriv := prior != nil && len(WalkEntries(prior)) >= 2 && (merge || !coll)
 		g.Emit(0x0101, in, nontriv, cls)
 	}
